@@ -60,6 +60,14 @@ ASSUMPTIONS = [
 SECOND = ("tri", "quad", "tet", "hex")
 
 
+def line_of(z):
+    """Connected line mesh through the sorted points z (explicit connectivity)."""
+    import skfem
+    z = np.asarray(z, dtype=float)
+    n = z.size
+    return St(skfem.MeshLine1(z[None, :], np.vstack((np.arange(n - 1), np.arange(1, n)))), "line", 1)
+
+
 def tagged_state(rng, mc, oriented=True):
     st = St(mc.mesh, mc.kind, mc.order)
     subs, bnds = random_tags(rng, st, oriented=oriented)
@@ -215,7 +223,7 @@ def fam_split_3d(ctx, k):
         z = np.unique(G.dyadic(rng, int(rng.integers(2, 5)), bits=5))
         z = z if z.size >= 2 else np.array([0.0, 0.5, 1.0])
         base = St(skfem.MeshTri1(tp, tt), "tri", 1)
-        line = St(skfem.MeshLine1(z[None, :]), "line", 1)
+        line = line_of(z)
         w = O.op_extrude(ctx, rng, base, line)
         if w is not None:
             O.op_to_meshtet(ctx, rng, w, conform_expected=True)
@@ -318,7 +326,7 @@ def chain_step(ctx, rng, st):
         import skfem
         z = np.unique(G.dyadic(rng, int(rng.integers(2, 4)), bits=4))
         z = z if z.size >= 2 else np.array([0.0, 1.0])
-        return O.op_extrude(ctx, rng, st, St(skfem.MeshLine1(z[None, :]), "line", 1)), op
+        return O.op_extrude(ctx, rng, st, line_of(z)), op
     if op == "add-shifted-copy":
         if not _round8_stable(st):
             ctx.drop("add-in-sequence-skipped(coordinates-finer-than-8-decimals)")
@@ -403,21 +411,57 @@ def fam_directed(ctx, k):
             O.op_smoothed(ctx, rng, st)
 
 
-Q = {"quick": 75, "thorough": 480}
-FAMILIES = [Family("restrict-" + kd, fam_restrict(kd), quick=q, thorough=th, budget=Q)
-            for kd, q, th in (("line", 10, 400), ("tri", 18, 700), ("quad", 14, 560), ("tet", 8, 320),
-                              ("hex", 10, 400), ("wedge", 8, 320))]
-FAMILIES += [
-    Family("cleanup", fam_cleanup, 36, 1400, budget=Q),
-    Family("join-add", fam_add(8), 36, 1400, budget=Q),
-    Family("join-add-fine-coordinates", fam_add(None), 12, 480, budget=Q),
-    Family("join-matmul", fam_matmul, 36, 1400, budget=Q),
-    Family("split-quad", fam_split_quad, 24, 960, budget=Q),
-    Family("split-3d", fam_split_3d, 16, 640, budget=Q),
-    Family("extrude", fam_extrude, 18, 720, budget=Q),
-    Family("transform", fam_transform, 60, 2400, budget=Q),
-    Family("trace", fam_trace, 16, 640, budget=Q),
-    Family("tagging", fam_tagging, 24, 960, budget=Q),
-    Family("sequences", fam_chains, 60, 2400, budget=Q),
-    Family("directed", fam_directed, 8, 8, budget=Q),
-]
+def fam_docs(ctx, k):
+    """Meshes shipped with the documentation (gmsh/vtk/json, tagged, arbitrary local orientation)."""
+    import glob
+    import os
+    import skfem
+    from ..engine import REPO
+    files = sorted(glob.glob(os.path.join(REPO, G.DOCS_MESHES, "*")))
+    if k >= len(files):
+        return
+    f = files[k]
+    rng = ctx.rng()
+    try:
+        m = skfem.io.json.from_file(f) if f.endswith(".json") else skfem.Mesh.load(f)
+        kind = G.kind_of(m)
+    except Exception:
+        ctx.drop("docs-mesh-unreadable-or-unknown-kind")
+        return
+    if m.t.shape[1] > ctx.scale(1500, 6000):
+        ctx.drop("docs-mesh-too-large")
+        return
+    st = St(m, kind, G.order_of(m))
+    ctx.reached("docs-mesh-loaded")
+    subs = dict(m.subdomains or {})
+    if st.order == 1:
+        for name in sorted(subs)[:2]:
+            if 0 < len(subs[name]) < st.nt:
+                out = m.restrict(name)
+                ctx.reached("docs-restrict-by-name")
+        O.op_restrict(ctx, rng, st)
+        O.op_transform(ctx, rng, st)
+        if kind == "quad":
+            O.op_to_meshtri(ctx, rng, st, style=("x" if k % 2 else None))
+        if kind in ("hex", "wedge"):
+            O.op_to_meshtet(ctx, rng, st)
+        if kind in ("tri", "tet"):
+            O.op_oriented(ctx, rng, st)
+    else:
+        O.op_transform(ctx, rng, st)
+    ctx.nontrivial("docs", os.path.basename(f))
+
+
+QB = {"quick": 75, "thorough": 540}
+QUICK = {"restrict-line": 40, "restrict-tri": 90, "restrict-quad": 70, "restrict-tet": 40, "restrict-hex": 50,
+         "restrict-wedge": 40, "cleanup": 150, "join-add": 150, "join-add-fine-coordinates": 40, "join-matmul": 150,
+         "split-quad": 100, "split-3d": 60, "extrude": 70, "transform": 240, "trace": 70, "tagging": 100,
+         "sequences": 250}
+THOROUGH_FACTOR = 60
+_FNS = {"cleanup": fam_cleanup, "join-add": fam_add(8), "join-add-fine-coordinates": fam_add(None),
+        "join-matmul": fam_matmul, "split-quad": fam_split_quad, "split-3d": fam_split_3d, "extrude": fam_extrude,
+        "transform": fam_transform, "trace": fam_trace, "tagging": fam_tagging, "sequences": fam_chains}
+_FNS.update({"restrict-" + kd: fam_restrict(kd) for kd in G.KINDS})
+FAMILIES = [Family(name, _FNS[name], quick=q, thorough=q * THOROUGH_FACTOR, budget=QB) for name, q in QUICK.items()]
+FAMILIES.append(Family("directed", fam_directed, 8, 8, budget=QB))
+FAMILIES.append(Family("docs-meshes", fam_docs, 40, 40, budget={"quick": 60, "thorough": 300}))
